@@ -124,6 +124,11 @@ def main():
     for s in parsecases.corpus_strings():
         cases.append(("mol", s, None))
         cases.append(("system", s, None))
+    # mixture masses whose canonical (repr) form carries a signed exponent: below 1e-4, from 1e16 on - written in plain decimals or derived
+    for s in ["CCO.|0.00001%|", "CC.|0.00002|", "CC.|20000000000000000|", "CCN.|0.000025|", "CC{[$][$]CC[$][$]}|uniform(20, 90)|C.|0.00003%|"]:
+        cases.append(("mol", s, None))
+    for s in ["CCO.|0.000001%|{[][<]CC[>]; [<]C, [>]N []}|uniform(50, 100)|.|1000|", "CCO.|0.00002|CCN.|0.00006|", "CC.|30000000000000000|CCC.|10000000000000000|"]:
+        cases.append(("system", s, None))
     by_group = {}
     ops = []
     meta = []
